@@ -298,6 +298,8 @@ def correspondence(cases, impl, model, tags):
     """compare the observation lines with a tag in [tags]; returns list of (case id, impl, model)"""
     dis = []
     for c in cases:
+        if "N" in c.ops:      # huge case: implementation + specification only (oracles), no model run
+            continue
         a = relevant(impl.get(c.id, ["#MISSING"]), tags)
         b = relevant([l for l in model.get(c.id, ["#MISSING"]) if not l.startswith("SPEC")], tags)
         if a != b:
